@@ -5,6 +5,7 @@ use serde_json::Value;
 use std::path::Path;
 use std::time::Instant;
 
+pub mod c01;
 pub mod c03;
 pub mod c04;
 pub mod c05;
@@ -26,6 +27,7 @@ type RunFn = fn(&Env, &Known, Instant, u64, Vec<Violation>) -> i32;
 type ReplayFn = fn(&Value) -> Outcome;
 
 const TABLE: &[(&str, RunFn, ReplayFn)] = &[
+    ("C01", c01::run, c01::replay),
     ("C03", c03::run, c03::replay),
     ("C04", c04::run, c04::replay),
     ("C05", c05::run, c05::replay),
